@@ -543,3 +543,31 @@ def has_or_absorption(t):
     if isinstance(t, list):
         return any(has_or_absorption(x) for x in t)
     return False
+
+
+def _contains_outer_join(t):
+    if isinstance(t, tuple):
+        if t and t[0] == "join" and t[1] in ("left", "right"):
+            return True
+        return any(_contains_outer_join(x) for x in t[1:] if isinstance(x, (tuple, list)))
+    if isinstance(t, list):
+        return any(_contains_outer_join(x) for x in t)
+    return False
+
+
+def has_exists_over_outer_join(t):
+    """EXISTS / NOT EXISTS (semi / anti joins) whose subquery contains a LEFT/RIGHT join hang the engine
+    (known finding F38, probed by C04); such queries are not generated."""
+    if isinstance(t, tuple):
+        if t and t[0] == "join" and t[1] in ("semi", "anti") and _contains_outer_join(t[4]):
+            return True
+        if t and t[0] in ("exists", "scalar", "insub", "notinsub") and _contains_outer_join(t[-1]):
+            return True
+        return any(has_exists_over_outer_join(x) for x in t[1:] if isinstance(x, (tuple, list)))
+    if isinstance(t, list):
+        return any(has_exists_over_outer_join(x) for x in t)
+    return False
+
+
+def excluded(t):
+    return has_or_absorption(t) or has_exists_over_outer_join(t)
